@@ -3,6 +3,7 @@ import H2V.Driver.Codec
 import H2V.Driver.Wire
 import H2V.Driver.Comp
 import H2V.Spec.WriteMon
+import H2V.Spec.StateInv
 open H2V H2V.Driver
 
 structure AllState where
@@ -27,8 +28,17 @@ def handleWriteMon (s : H2V.Spec.WriteMon.St) (ws : List String) : Option (H2V.S
   | ["mon_wr", "shut"] => some (s, showV (H2V.Spec.WriteMon.shut s))
   | _ => none
 
+/-- `mon_st <client|server> <reset_max|-> <digest>`: bookkeeping invariants on the real state (H2V/Spec/StateInv.lean) -/
+def handleStateInv (ws : List String) : Option String :=
+  match ws with
+  | ["mon_st", role, rm, digest] => some (showV (H2V.Spec.StateInv.check (role == "server") rm.toNat? digest))
+  | _ => none
+
 def stepLine (st : AllState) (line : String) : AllState × String :=
   let ws := (line.trimAscii.toString.splitOn " ").filter (· ≠ "")
+  match handleStateInv ws with
+  | some out => (st, out)
+  | none =>
   match handleWriteMon st.wmon ws with
   | some (m, out) => ({ st with wmon := m }, out)
   | none =>
